@@ -126,10 +126,10 @@ func (in *c04Interp) exec(line string) string {
 			return "nobuilder"
 		}
 		k, v := zz.Unhex(w[1]), zz.Unhex(w[2])
-		in.metas = append(in.metas, [2][]byte{k, v})
 		if err := in.b.Metadata().Add(k, v); err != nil {
 			return "err"
 		}
+		in.metas = append(in.metas, [2][]byte{k, v})
 		return "ok"
 	case "ins":
 		if in.b == nil {
@@ -416,6 +416,46 @@ func (g *c04Gen) generate(thorough bool) {
 			g.emit("ins %s %s", zz.Hex(k), zz.Hex(g.rng.Bytes(9)))
 			g.emit("seal")
 			g.emit("lookup %s", zz.Hex(k))
+		}
+	}
+	{ // metadata of every allowed shape: empty, maximal (255 pairs of 255+255 bytes), and what Add refuses
+		g.emit("case meta-maximal")
+		g.emit("new 8 5")
+		for i := 0; i < 255; i++ {
+			g.emit("meta %s %s", zz.Hex(g.rng.Bytes(255)), zz.Hex(g.rng.Bytes(255)))
+		}
+		g.emit("meta %s %s", zz.Hex(g.rng.Bytes(3)), zz.Hex(g.rng.Bytes(3))) // the 256th pair is refused
+		ks := g.keyset(5, 8, 77)
+		for _, k := range ks {
+			g.emit("ins %s %s", zz.Hex(k), zz.Hex(g.rng.Bytes(8)))
+		}
+		g.emit("seal")
+		for _, k := range ks {
+			g.emit("lookup %s", zz.Hex(k))
+		}
+		g.emit("case meta-shapes")
+		g.emit("new 8 5")
+		g.emit("meta - -")
+		g.emit("meta %s -", zz.Hex(g.rng.Bytes(255)))
+		g.emit("meta - %s", zz.Hex(g.rng.Bytes(255)))
+		g.emit("meta %s %s", zz.Hex(g.rng.Bytes(256)), zz.Hex(g.rng.Bytes(1))) // refused
+		g.emit("meta %s %s", zz.Hex(g.rng.Bytes(1)), zz.Hex(g.rng.Bytes(256))) // refused
+		for _, k := range ks {
+			g.emit("ins %s %s", zz.Hex(k), zz.Hex(g.rng.Bytes(8)))
+		}
+		g.emit("seal")
+		for _, k := range ks {
+			g.emit("lookup %s", zz.Hex(k))
+		}
+		for _, np := range []int{1, 2, 127, 128, 254} {
+			g.emit("case meta-count-%d", np)
+			g.emit("new 4 3")
+			for i := 0; i < np; i++ {
+				g.emit("meta %s %s", zz.Hex(g.rng.Bytes(g.rng.Intn(256))), zz.Hex(g.rng.Bytes(g.rng.Intn(256))))
+			}
+			g.emit("ins %s %s", zz.Hex(ks[0]), zz.Hex(g.rng.Bytes(4)))
+			g.emit("seal")
+			g.emit("lookup %s", zz.Hex(ks[0]))
 		}
 	}
 	// several buckets through the declared count, real count much smaller / larger
